@@ -857,6 +857,9 @@ class BackendZ3(Backend):
             for a, nice_ast in zip(c, converted, strict=False):
                 ast = nice_ast.ast
                 h = self._z3_ast_hash(ast)
+                if h not in self._ast_cache:
+                    # the cache owns a reference to every Z3 AST it holds, which eviction drops again
+                    z3.Z3_inc_ref(nice_ast.ctx.ref(), ast)
                 self._ast_cache[h] = (a, ast)
         return self._add(s, converted, track=track)
 
